@@ -19,7 +19,7 @@ LEVEL = 'model_checking'
 PRELOAD = ['frame.geometry.geometry', 'frame.netlist.netlist', 'frame.die.die', 'frame.allocation.allocation', 'ruamel.yaml', 'mc.common', 'tools.spectral.spectral']
 RULE = ("environment-answer enumeration: every sequence of answers of the random source (menu {0.13, 0.88}, 3 answers {0.13, 0.52, 0.88} in thorough, each "
         "shifted by a distinct per-draw offset) for the 2*m draws of a trial with m movable modules x netlist topologies {path, cycle, star, clique, 3-pin "
-        "hyperedge + edges} on 4-5 modules x masses {equal, unequal} x {no fixed, one fixed, one small / one large hard two-rectangle module, fixed terminals on the die edges} x dies {6x4, 4x4, 10x3} x trials {1, 2}. "
+        "hyperedge + edges} on 4-5 modules x masses {equal, unequal} x {no fixed, one fixed, one small / one large hard two-rectangle module, fixed terminals on the die edges} x dies {6x4, 4x4, 10x3, 2.4e9x1.6e9} x trials {1, 2}; a soft module carrying a rectangle much smaller than its area; 0 trials from given (also aligned) centres. "
         "states = distinct (configuration, answer sequence) executions; transitions = draws answered.")
 ASSUMPTIONS = ["the menu fixes on which side and in which order modules start, which determines the eigenvector the power iteration converges to; "
                "two draws never coincide (probability-0 events for a real stream)",
@@ -78,6 +78,13 @@ def build(case):
             if init in ('column', 'same'):
                 cx = W / 2
             mods[f'M{i}']['center'] = [cx, cy]
+    if case.get('softrect'):
+        # a soft module that already carries a rectangle covering only a small part of its area (e.g. a trunk from an
+        # earlier step): its disc is still the disc of its AREA
+        a = mods[f'M{n - 1}']['area']
+        side = math.sqrt(a / 16)
+        mods[f'M{n - 1}']['rectangles'] = [[W / 2, H / 2, side, side]]
+        mods[f'M{n - 1}'].pop('center', None)
     extra = case['extra']
     names = [f'M{i}' for i in range(n)]
     if extra == 'fixed':
@@ -126,7 +133,7 @@ def snapshot(nl):
     mods = []
     for m in nl.modules:
         rects = [(r.center.x, r.center.y, r.shape.w, r.shape.h) for r in m.rectangles]
-        mods.append((m.name, m.area(), m.is_fixed, m.is_hard, rects))
+        mods.append((m.name, m.area(), m.is_fixed, m.is_hard, rects, None if m.center is None else (m.center.x, m.center.y)))
     nets = [(tuple(b.name for b in e.modules), e.weight) for e in nl.edges]
     return mods, nets
 
@@ -167,6 +174,12 @@ def check_case(case, res):
         if m.is_fixed:
             if rects != b[4]:
                 res.violation('fixed-moved', case, attrs, b[4], rects)
+            ctr = None if m.center is None else (m.center.x, m.center.y)
+            # the place of a fixed module is given by its rectangles, and by its centre when it has none (a pin); a centre
+            # that is reported must be the old one (the centre attribute of a module with rectangles may be dropped)
+            if (not rects and ctr is None) or (ctr is not None and b[5] is not None and
+                                                max(abs(ctr[0] - b[5][0]), abs(ctr[1] - b[5][1])) > tol):
+                res.violation('fixed-moved', case, dict(attrs, terminal=m.is_terminal), b[5], ctr)
             continue
         if m.is_hard and not m.is_terminal:
             # rigid: same shapes, same pairwise offsets
@@ -217,6 +230,12 @@ def configurations(tier):
         cfgs.append(dict(topo='cycle', masses='equal', extra='fixedpair', die=[6, 4], n=4, trials=2, menu=2, reduced4=True))
         # the same graph and die with other areas (placed after the ones above in the same shard)
         cfgs.append(dict(topo='path', masses='unequal', extra='none', die=[6, 4], n=4, trials=1, menu=2, scale=3.0, reduced4=True))
+        # a design in very large units (the convergence tolerance max(die) * n * 1e-10 reaches 1)
+        cfgs.append(dict(topo='path', masses='unequal', extra='none', die=[2.4e9, 1.6e9], n=5, trials=1, menu=2, reduced4=True))
+        cfgs.append(dict(topo='cycle', masses='equal', extra='hard', die=[2.4e9, 1.6e9], n=4, trials=2, menu=2, reduced4=True))
+        # the heaviest soft module carries a small rectangle
+        cfgs.append(dict(topo='path', masses='unequal', extra='none', die=[6, 4], n=4, trials=1, menu=2, softrect=True))
+        cfgs.append(dict(topo='star', masses='unequal', extra='fixed', die=[10, 3], n=4, trials=1, menu=2, softrect=True, reduced4=True))
     else:
         for t in TOPOLOGIES:
             for ms in ('equal', 'unequal'):
@@ -227,6 +246,10 @@ def configurations(tier):
                     cfgs.append(dict(topo=t, masses=ms, extra=ex, die=[[6, 4], [4, 4], [10, 3]][len(cfgs) % 3], n=5, trials=1, menu=2))
         for t in TOPOLOGIES:
             cfgs.append(dict(topo=t, masses='unequal', extra='hard', die=[4, 4], n=4, trials=2, menu=2, reduced=True))
+        for t in TOPOLOGIES:
+            cfgs.append(dict(topo=t, masses='unequal', extra='none', die=[2.4e9, 1.6e9], n=5, trials=1, menu=2))
+            cfgs.append(dict(topo=t, masses='unequal', extra='none', die=[6, 4], n=4, trials=1, menu=2, softrect=True))
+            cfgs.append(dict(topo=t, masses='unequal', extra='pins', die=[6, 4], n=4, trials=1, menu=2))
     return cfgs
 
 
@@ -273,6 +296,8 @@ def run_shard(shard, tier, res):
                         trials=cfg['trials'], answers=seq)
             if cfg.get('scale'):
                 case['scale'] = cfg['scale']
+            if cfg.get('softrect'):
+                case['softrect'] = True
             check_case(case, res)
             last = case
     if shard['part'] == 0:
